@@ -325,9 +325,27 @@ pub async fn t_async_nested(a: u32, log: &Log) -> u32 {
     x + y
 }
 
+/// a plain fn that returns a boxed future built by its last expression (the shape async-trait
+/// generates, written by hand, with statements in front of it)
+pub fn p_boxed(a: u32, log: &Log) -> Pin<Box<dyn Future<Output = u32>>> {
+    log.push(format!("before pin {a}"));
+    Box::pin(async move {
+        YieldN(a % 2).await;
+        a.wrapping_mul(2)
+    })
+}
+#[trace(name = "boxed")]
+pub fn t_boxed(a: u32, log: &Log) -> Pin<Box<dyn Future<Output = u32>>> {
+    log.push(format!("before pin {a}"));
+    Box::pin(async move {
+        YieldN(a % 2).await;
+        a.wrapping_mul(2)
+    })
+}
+
 // ---------------------------------------------------------------------------------------------
 
-pub const NTWINS: u8 = 20;
+pub const NTWINS: u8 = 21;
 
 #[derive(Clone, Debug, PartialEq, serde::Serialize)]
 pub struct Outcome {
@@ -396,7 +414,7 @@ pub fn run(f: u8, arg: u32, traced: bool) -> Outcome {
     let a = arg;
     let s = format!("s{}", arg % 7);
     // async twins: drop before completion for some arguments
-    let drop_after = if arg % 5 == 4 { Some(1) } else { None };
+    let drop_after = if arg % 5 == 4 && f != 19 { Some(1) } else { None };
     let foo = Foo(arg % 11);
     macro_rules! sync {
         ($p:expr, $t:expr) => {{
@@ -430,7 +448,8 @@ pub fn run(f: u8, arg: u32, traced: bool) -> Outcome {
         16 => asyn!(p_async_question(a, &log), t_async_question(a, &log)),
         17 => asyn!(p_async_panics(a, &log), t_async_panics(a, &log)),
         18 => asyn!(foo.p_am(a, &log), foo.t_am(a, &log)),
-        _ => asyn!(p_async_nested(a, &log), t_async_nested(a, &log)),
+        19 => asyn!(p_async_nested(a, &log), t_async_nested(a, &log)),
+        _ => asyn!(p_boxed(a, &log), t_boxed(a, &log)),
     }
 }
 
@@ -513,6 +532,7 @@ pub fn expected(f: u8, arg: u32) -> ExpSpan {
         16 => leaf(NameRule::BodyPath, vec![], true),
         17 => leaf(NameRule::BodyPath, vec![], true),
         18 => leaf(NameRule::Fixed("am"), vec![kv("a", format!("{a}"))], true),
+        20 => leaf(NameRule::Fixed("boxed"), vec![], true),
         _ => ExpSpan {
             children: vec![
                 leaf(NameRule::Fixed("t_sync_short"), vec![], false),
